@@ -183,7 +183,7 @@ def explore(ctx):
     from props import c17
     for c in itertools.chain(
             LC.gen_cases(ctx, ctx.budget(600, 15000), mutate_p=0.55, model_filter=auto_recognised, prop='C02'),
-            LC.alias_across_types(ctx, ctx.budget(40, 800))):
+            LC.alias_across_types(ctx, ctx.budget(40, 800)), LC.replacing_base_hooks(ctx)):
         # an application-tagged scalar / mapping among the extra attributes of a class that takes them
         if c.doc is not None and rng.random() < 0.25 and not (c.desc and c.desc[0] == 'alias-across-types'):
             by = {x['name']: x for x in c.spec}
@@ -198,7 +198,14 @@ def explore(ctx):
                                   ('s', 'true', False, '!Ident'), ('s', '~', False, '!x'),
                                   ('m', [(G.S('k'), ('s', '7', False, '!Ident'))], '!Thing'),
                                   ('q', [('s', '2001-01-01', False, '!d')], None)])
-                doc2 = G.replace_at(c.doc, p, lambda d: ('m', list(m[1]) + [(G.S('zextra'), val)], m[2]))
+                # the new key: a fresh name, or the dashed spelling of an underscored key that is already there
+                # (the exact spelling is the attribute, the dashed one an extra attribute)
+                under = [k[1] for k, _ in m[1] if k[0] == 's' and '_' in k[1].strip('_')
+                         and not any(k2[0] == 's' and k2[1] == k[1].replace('_', '-') for k2, _ in m[1])]
+                newkey = rng.choice(under).replace('_', '-') if under and rng.random() < 0.5 else 'zextra'
+                if newkey != 'zextra':
+                    ctx.count('tagged_extra_dashed_twin')
+                doc2 = G.replace_at(c.doc, p, lambda d: ('m', list(m[1]) + [(G.S(newkey), val)], m[2]))
                 try:
                     c2 = L.build_case(rng, yaml, yatiml, c.spec, c.doc_type, doc2, ('tagged-extra', p))
                     L.run_case(c2, yaml)
